@@ -1,6 +1,7 @@
 package engine
 
 import (
+	"time"
 	"bufio"
 	"bytes"
 	"encoding/json"
@@ -214,8 +215,15 @@ func RunJobs(workerArgs []string, jobs []string, stop func() bool) (*JobResult, 
 				next++
 				mu.Unlock()
 				b, _ := json.Marshal(job)
+				t0 := time.Now()
 				stdin.Write(append(b, '\n'))
 				line, err := rd.ReadString('\n')
+				if tl := os.Getenv("VERIF_JOBLOG"); tl != "" {
+					if f, e := os.OpenFile(tl, os.O_APPEND|os.O_CREATE|os.O_WRONLY, 0644); e == nil {
+						fmt.Fprintf(f, "%8.1fs %.200s\n", time.Since(t0).Seconds(), job)
+						f.Close()
+					}
+				}
 				if err != nil || strings.HasPrefix(line, "ENGINE-ERROR") {
 					rest, _ := io.ReadAll(rd)
 					cmd.Wait()
